@@ -576,6 +576,27 @@ func generate(repo, out string) error {
 	if err := writeIfChanged(filepath.Join(out, "Arith.lean"), ar); err != nil {
 		return err
 	}
+	jt, err := genJsonTable(repo)
+	if err != nil {
+		return err
+	}
+	if err := writeIfChanged(filepath.Join(out, "JsonTable.lean"), jt); err != nil {
+		return err
+	}
+	bt, err := genLayoutTable(repo)
+	if err != nil {
+		return err
+	}
+	if err := writeIfChanged(filepath.Join(out, "LayoutTable.lean"), bt); err != nil {
+		return err
+	}
+	mm, err := genMurmur(repo)
+	if err != nil {
+		return err
+	}
+	if err := writeIfChanged(filepath.Join(out, "Murmur.lean"), mm); err != nil {
+		return err
+	}
 	_ = os.Stdout
 	return nil
 }
